@@ -159,7 +159,8 @@ def run_fields(ctx, p):
     front = a + cl * t
     lam, G = float(s.lame_mod), float(s.shear_mod)
     # -- cavity wall and front ----------------------------------------------------------------
-    pts = np.array([a, a * (1 + 1e-9), front * (1 + 1e-6), front * 1.5, front * 10])
+    # ahead of the front: just ahead, and far out in units of the cavity radius (a far-field mesh around a small cavity)
+    pts = np.array([a, a * (1 + 1e-9), front * (1 + 1e-6), front * 1.5, front * 10, max(front * 2, 3e3 * a), max(front * 3, 3e4 * a), max(front * 4, 1e6 * a)])
     sol = ctx.call(s, pts, t)
     r = abs(sol["stress_rr"][0] + ps) / ps
     ctx.observe("wave.cavity", "Blake", r <= 1e-9, measure=r, tol=1e-9,
